@@ -497,4 +497,6 @@ def run(ctx, report):
     from rules import c07
     # "a failing call reports the error kind that matches its cause": in particular it reports an error at all
     c07.run(ctx, Only(report, {"ONCE": "ERRKIND"}, keys=lambda r, k: k.endswith("swallows-error")))
+    # the pairs of the map model are what iter() yields
+    api.readers_rule(ctx, Only(report, {"READ": "READ"}, keys=lambda r, k: k == "iter"))
 
